@@ -64,6 +64,15 @@ def build_harness(race=False, verbose=False):
     with open(os.path.join(HARNESS, 'go.sum'), 'w') as fh:
         fh.write('\n'.join(sorted(sums)) + '\n')
     cmd = ['go', 'build', '-tags', 'verif', '-o', out]
+    if REPO != '/repo':
+        # a background soak run works on a snapshot of the repository: same module file with the replace targets redirected
+        mf = os.path.join(BUILD, 'go.alt.mod')
+        with open(os.path.join(HARNESS, 'go.mod')) as fh:
+            txt = fh.read().replace('=> /repo', '=> ' + REPO)
+        with open(mf, 'w') as fh:
+            fh.write(txt)
+        shutil.copy(os.path.join(HARNESS, 'go.sum'), os.path.join(BUILD, 'go.alt.sum'))
+        cmd.append('-modfile=' + mf)
     if race:
         cmd.insert(2, '-race')
     cmd.append('./cmd/roverif')
